@@ -1,11 +1,20 @@
 import JadeModel.Proofs.SystemNode
 import JadeModel.Proofs.SystemCapDefs
-import JadeModel.Proofs.SystemCapTrackedStep
 import JadeModel.Proofs.SystemCapCount
+import JadeModel.Proofs.SystemCapTrackedStepA
+import JadeModel.Proofs.SystemCapTrackedStepB
 
 set_option linter.unusedSimpArgs false
 
 namespace Jade.Sys
+
+theorem capInv_tracked_step {s s' : Sys} {op : Op} (hi : CapInv s) (h : step s op = some s') :
+    (∀ h, activeB s' h = true → h ∈ trackedIds s' ∨ Orphan s') ∧
+    (∀ q a y, s'.procs q = .sub a y → holds y.pc = true → y.pend = [] → ∀ h ∈ y.out, h ∈ s'.disk.ids) ∧
+    (∀ q, s'.submitter = some q → ∃ a y, s'.procs q = .sub a y ∧ holds y.pc = true) := by
+  have c0 := capInv_tracked_step_1 hi h
+  obtain ⟨c1, c2⟩ := capInv_tracked_step_2 hi h
+  exact ⟨c0, c1, c2⟩
 
 theorem capInv_step {s s' : Sys} {op : Op} (hi : CapInv s) (h : step s op = some s') : CapInv s' := by
   obtain ⟨t1, t2, t3⟩ := capInv_tracked_step hi h
